@@ -575,6 +575,29 @@ Theorem C04_kernel_ridge : forall varE varU, k_ridge varE varU = varE / varU /\ 
 Proof. intros. split; [apply k_ridge_model | apply kernel_ridge_positive]. Qed.
 Print Assumptions C04_kernel_ridge.
 
+(** ** scale covariance of the values themselves, and sessions *)
+
+(** if trait k of a second model has c times the effects of trait k of the first, its column of Z u is c times the first's, for
+    every c (2^-40 and 2^20 included) and every dosage matrix *)
+Theorem C04_gebv_scale_covariant : forall g g' Z v v' k c, rows_len (g_t g) (bv_effects g) -> rows_len (g_t g') (bv_effects g') -> g_t g' = g_t g ->
+  (k < g_t g)%nat -> col_scaled k c (bv_effects g') (bv_effects g) ->
+  gebv_numpy g Z = Some v -> gebv_numpy g' Z = Some v' ->
+  qeql (col 0 k v') (map (Qmult c) (col 0 k v)).
+Proof. exact gebv_col_scaled. Qed.
+Print Assumptions C04_gebv_scale_covariant.
+
+(** a model object is its current coefficient arrays: whatever is observed ([obs]: any method, on any input) after a history of
+    assignments through the setters depends on the last value written to each field only, independent fields commute, a copy
+    answers like the original and can be updated without reference to it, and writing every field back gives the same object *)
+Theorem C04_session_state_only : forall (A : Type) (obs : gmodel -> A) g (a b c : qmat),
+  obs (set_ua (set_ua g a) b) = obs (set_ua g b) /\ obs (set_beta (set_beta g a) b) = obs (set_beta g b) /\
+  obs (set_umisc (set_umisc g a) b) = obs (set_umisc g b) /\ obs (set_ud (set_ud g a) b) = obs (set_ud g b) /\
+  obs (set_beta (set_ua g a) c) = obs (set_ua (set_beta g c) a) /\ obs (set_ud (set_umisc g a) c) = obs (set_umisc (set_ud g c) a) /\
+  obs (model_copy g) = obs g /\ obs (set_ua (model_copy g) a) = obs (set_ua g a) /\
+  (set_ua (set_beta (set_umisc (set_ud g (g_ud g)) (g_umisc g)) (g_beta g)) (g_ua g) = g).
+Proof. intros. apply session_state_only. Qed.
+Print Assumptions C04_session_state_only.
+
 (** non-vacuity of the hypotheses of the kernel theorems *)
 Example C04_kernel_hyps_satisfiable :
   let g := build CAD [[1; 2]; [3; 4]] None [[1; 0]; [-1; 2]] (Some [[0; 1]; [1; 0]]) 2 in
